@@ -105,6 +105,41 @@ def random_circuit(rng, n_inputs=None, n_gates=None, types=None, labels_prefix=N
     return {'inputs': ins, 'outputs': outs, 'gates': gates, 'users': ulist, 'blocks': blocks}
 
 
+def malformed_variant(rng, dump):
+    """a netlist the library's own mutators would not build (acyclic, so evaluators terminate):
+    dangling operand, wrong arity, INPUT gate missing from the input list, non-INPUT label in the
+    input list, dangling output"""
+    d = {k: [list(x) if isinstance(x, tuple) else x for x in v] if isinstance(v, list) else v for k, v in dump.items()}
+    d['gates'] = [(k, t, list(o)) for k, t, o in dump['gates']]
+    d['inputs'], d['outputs'] = list(dump['inputs']), list(dump['outputs'])
+    kind = rng.choice(['dangling', 'arity', 'input_missing', 'input_extra', 'dangling_output'])
+    non_in = [i for i, g in enumerate(d['gates']) if g[1] != 'INPUT']
+    if kind == 'dangling' and non_in:
+        i = rng.choice(non_in)
+        k, t, o = d['gates'][i]
+        if o:
+            o = list(o)
+            o[rng.randrange(len(o))] = 'ghost'
+            d['gates'][i] = (k, t, o)
+    elif kind == 'arity' and non_in:
+        i = rng.choice(non_in)
+        k, t, o = d['gates'][i]
+        extra = [rng.choice(d['inputs'])] if d['inputs'] else []      # an input: cannot close a cycle
+        d['gates'][i] = (k, t, list(o)[:-1] if o and rng.random() < 0.5 else list(o) + extra)
+    elif kind == 'input_missing' and d['inputs']:
+        d['inputs'].pop(rng.randrange(len(d['inputs'])))
+    elif kind == 'input_extra' and non_in:
+        d['inputs'].append(d['gates'][rng.choice(non_in)][0])
+    elif kind == 'dangling_output':
+        d['outputs'].append('ghost')
+    users = {}
+    for l, t, ops in d['gates']:
+        for o in ops:
+            users.setdefault(o, []).append(l)
+    d['users'] = list(users.items())
+    return d
+
+
 # ------------------------------------------------------------------ operations
 def op_term(op) -> str:
     k = op[0]
